@@ -341,7 +341,7 @@ class C17(Prop):
     def nontrivial(self, case, out):
         return any((l.startswith("ok n=") and not l.startswith("ok n=0")) or l.startswith("ok tr=") for l in out)
 
-    def monitor(self, ctx, case, out):
+    def _monitor(self, ctx, case, out):
         prev_orf = None
         for op, l in zip(case["ops"], out):
             if l.startswith(("fault", "atexit")): return None
@@ -415,8 +415,22 @@ class C17(Prop):
                     return Failure("monitor", "ORF list differs from the specification at record %d: got %r want %r (%d vs %d records)" % (i + 1, g, ww, len(got), len(wantf)))
         return None
 
+    def monitor(self, ctx, case, out):
+        st = self.__dict__.setdefault("_dist", {"ops": {}, "results": {}, "arg_bytes": {}})
+        for op, l in zip(case["ops"], out):
+            name = op.split(" ", 1)[0]
+            st["ops"][name] = st["ops"].get(name, 0) + 1
+            res = l.split(" ", 1)[0][:24] if l else "<none>"
+            if res.startswith("st="): res = res
+            key = name + ":" + res
+            st["results"][key] = st["results"].get(key, 0) + 1
+            n = len(op)
+            b = "<64" if n < 64 else "<1k" if n < 1024 else "<8k" if n < 8192 else ">=8k"
+            st["arg_bytes"][b] = st["arg_bytes"].get(b, 0) + 1
+        return self._monitor(ctx, case, out)
+
     def extra_evidence(self, ctx):
-        return {"tables_dumped": [t["id"] for t in getattr(self, "_tabs", [])]}
+        return {"input_distribution": getattr(self, "_dist", {}), "tables_dumped": [t["id"] for t in getattr(self, "_tabs", [])]}
 
 
 SPEC = C17()
